@@ -42,11 +42,14 @@ func extractSignature(p *Program, e Executor) ExecSig {
 		env.bind[e.Fn.Params[1]] = &term{K: "sym", S: "cmd"}
 		env.bind[e.Fn.Params[2]] = &term{K: "sym", S: "args"}
 	}
+	for fv, cv := range e.FreeConst {
+		env.fbind[fv] = constTerm(cv)
+	}
 	env.evalEffects()
 	sig := ExecSig{Name: e.Name}
 	var rets []*term
 	for _, r := range returnsOf(e.Fn) {
-		if r.Block() == e.Fn.Recover || len(r.Results) != 2 {
+		if r.Block() == e.Fn.Recover || len(r.Results) != 2 || env.deadBlock(r.Block()) {
 			continue
 		}
 		last := retOperand(r, 1)
@@ -58,6 +61,18 @@ func extractSignature(p *Program, e Executor) ExecSig {
 		}
 		m := env.eval(retOperand(r, 0))
 		er := env.eval(last)
+		if isNilConst(last) {
+			// `return msg, nil` where the handler's error is known nil: the same as `return msg, err`
+			for _, at := range factsAt(r.Block()) {
+				if ex, ok := at.X.(*ssa.Extract); ok && at.Kind == "nil" && at.Pos && ex.Index == 1 {
+					if hc, ok := ex.Tuple.(*ssa.Call); ok && hc.Common().IsInvoke() && isHandlerIface(hc.Common().Value.Type().String()) {
+						if mx, ok := strip(retOperand(r, 0)).(*ssa.Extract); ok && mx.Tuple == ex.Tuple {
+							er = &term{K: "sym", S: "herr"}
+						}
+					}
+				}
+			}
+		}
 		rets = append(rets, tOp("ret", m, er))
 	}
 	sig.Returns = tAlt(rets...).String()
@@ -262,7 +277,7 @@ func ruleCaseInsensitive(c *Ctx, rid string) {
 		})
 	}
 	c.count("upper-cased-comparisons", n)
-	c.floor("upper-cased-comparisons", 30)
+	c.floor("upper-cased-comparisons", 24)
 	if bad == 0 {
 		c.ok(rid, "case-constants", "", fmt.Sprintf("%d constants compared with upper-cased values are upper case", n))
 	}
